@@ -107,6 +107,12 @@ def run(ctx):
     thorough = ctx.tier == "thorough"
     nscen, nsched = (60, 14) if thorough else (12, 7)
     rtx.explore(ctx, ex, t["classes"], nscen, nsched, rel)
+    # systematic part: all schedules within `bound` deviations of the fair one, for a few scenarios of each class
+    bound, budget, per_class = (2, 4000, 3) if thorough else (1, 260, 1)
+    for cls in t["classes"]:
+        for _ in range(per_class):
+            sc = rtx.gen(ctx.rng, cls)
+            rtx.enumerate_schedules(ctx, ex, sc, bound, budget, rel)
     ex.evidence()
     ctx.cov["rule"] += ". Property decided on the implementation by the oracles: " + t["what"]
     ctx.cov["exhaustive"] = False
